@@ -29,6 +29,8 @@ func init() {
 func runC06(c *Ctx) {
 	p := c.P
 	s := p.Selectors()
+	s.checkFailedShutdownCommandKills(c)
+	s.checkOrderedOrderComplete(c)
 	requireN("StopCore", s.StopCores, 1, 1)
 	sigkill := int64(9)
 
